@@ -5,16 +5,17 @@
 // recognise is emitted as an "unknown:…" entry, which makes the obligations fail.
 //
 // Facts:
-//   packTypes      for the eight packs: Go type name, the constant GetPackType returns, its value
-//   netSrc/netVer  the constants the one-way client passes to WriteHeader, and the argument list of
-//                  both WriteHeader calls of makeData
-//   writeHeader    the call sequence of io.DataOutputX.WriteHeader / WriteOneWayHeader
-//   crcTable       the 256 table constants of util/hash; initial and final xor constants and the step
-//                  expression of Hash64 (as text)
-//   hdr            AbstractPack.Write: condition text and call skeleton of both branches
-//   skeletons      for each Write method of the eight packs (and the helpers of CounterPack1): the ordered
-//                  list of stream calls (method, argument text), with if/else/for structure markers
-//   hitmapLength, eventKeys
+//
+//	packTypes      for the eight packs: Go type name, the constant GetPackType returns, its value
+//	netSrc/netVer  the constants the one-way client passes to WriteHeader, and the argument list of
+//	               both WriteHeader calls of makeData
+//	writeHeader    the call sequence of io.DataOutputX.WriteHeader / WriteOneWayHeader
+//	crcTable       the 256 table constants of util/hash; initial and final xor constants and the step
+//	               expression of Hash64 (as text)
+//	hdr            AbstractPack.Write: condition text and call skeleton of both branches
+//	skeletons      for each Write method of the eight packs (and the helpers of CounterPack1): the ordered
+//	               list of stream calls (method, argument text), with if/else/for structure markers
+//	hitmapLength, eventKeys
 package main
 
 import (
@@ -1122,6 +1123,139 @@ func emitPackState(b *strings.Builder, packDir string, types []string, files map
 	fmt.Fprintf(b, "def packPkgVarsInWrite : List (String × List String) := [\n  %s]\n\n", strings.Join(pvars, ",\n  "))
 }
 
+// ---- send routes: EVERY statement of a function (not only the writes), nested, receiver and parameters
+// positional (_L0 = receiver, _L1.. = parameters in order, then locals in order of first use)
+func routeNormer(fd *ast.FuncDecl) *normer {
+	nm := &normer{loc: localsOf(fd), idx: map[string]int{}}
+	add := func(n string) {
+		nm.loc[n] = true
+		if _, ok := nm.idx[n]; !ok {
+			nm.idx[n] = len(nm.idx)
+		}
+	}
+	if fd.Recv != nil {
+		for _, f := range fd.Recv.List {
+			for _, n := range f.Names {
+				add(n.Name)
+			}
+		}
+	}
+	if fd.Type.Params != nil {
+		for _, f := range fd.Type.Params.List {
+			for _, n := range f.Names {
+				add(n.Name)
+			}
+		}
+	}
+	return nm
+}
+
+var routeDot = regexp.MustCompile(`(_L[0-9]+)\. `)
+
+// rtext: normalised text without the blank the printer leaves after a replaced identifier
+func rtext(nm *normer, e ast.Node) string { return routeDot.ReplaceAllString(nm.text(e), "$1.") }
+
+func routeArgs(nm *normer, c *ast.CallExpr) string {
+	var as []string
+	for i, a := range c.Args {
+		t := rtext(nm, a)
+		if c.Ellipsis.IsValid() && i == len(c.Args)-1 {
+			t += "..."
+		}
+		as = append(as, leanStr(t))
+	}
+	return "[" + strings.Join(as, ", ") + "]"
+}
+
+// X.Put(&T{k: v, …}) → (.put X T [(k, v)…])
+func routePut(nm *normer, e ast.Expr) (string, bool) {
+	c, ok := e.(*ast.CallExpr)
+	if !ok || len(c.Args) != 1 {
+		return "", false
+	}
+	se, ok := c.Fun.(*ast.SelectorExpr)
+	if !ok || se.Sel.Name != "Put" {
+		return "", false
+	}
+	ue, ok := c.Args[0].(*ast.UnaryExpr)
+	if !ok || ue.Op != token.AND {
+		return "", false
+	}
+	cl, ok := ue.X.(*ast.CompositeLit)
+	if !ok {
+		return "", false
+	}
+	var fs []string
+	for _, el := range cl.Elts {
+		kv, ok := el.(*ast.KeyValueExpr)
+		if !ok {
+			return "", false
+		}
+		fs = append(fs, "("+leanStr(text(kv.Key))+", "+leanStr(rtext(nm, kv.Value))+")")
+	}
+	return ".put " + leanStr(rtext(nm, se.X)) + " " + leanStr(text(cl.Type)) + " [" + strings.Join(fs, ", ") + "]", true
+}
+
+func routeStmts(nm *normer, stmts []ast.Stmt, ind string) string {
+	var out []string
+	for _, s := range stmts {
+		out = append(out, routeStmt(nm, s, ind+"  "))
+	}
+	return "[" + strings.Join(out, ",") + "]"
+}
+
+func routeStmt(nm *normer, s ast.Stmt, ind string) string {
+	nl := "\n" + ind
+	switch x := s.(type) {
+	case *ast.IfStmt:
+		if x.Init != nil {
+			break
+		}
+		els := "[]"
+		switch e := x.Else.(type) {
+		case *ast.BlockStmt:
+			els = routeStmts(nm, e.List, ind)
+		case nil:
+		default:
+			els = "[" + routeStmt(nm, e, ind+"  ") + "]"
+		}
+		return nl + ".ifElse " + leanStr(rtext(nm, x.Cond)) + " " + routeStmts(nm, x.Body.List, ind) + " " + els
+	case *ast.AssignStmt:
+		if len(x.Lhs) == 1 && len(x.Rhs) == 1 {
+			if p, ok := routePut(nm, x.Rhs[0]); ok {
+				rtext(nm, x.Lhs[0]) // the local takes its position here
+				return nl + p
+			}
+			return nl + ".assign " + leanStr(rtext(nm, x.Lhs[0])) + " " + leanStr(rtext(nm, x.Rhs[0]))
+		}
+	case *ast.ExprStmt:
+		if p, ok := routePut(nm, x.X); ok {
+			return nl + p
+		}
+		if c, ok := x.X.(*ast.CallExpr); ok {
+			return nl + ".call " + leanStr(rtext(nm, c.Fun)) + " " + routeArgs(nm, c)
+		}
+	case *ast.ReturnStmt:
+		if len(x.Results) == 1 {
+			if c, ok := x.Results[0].(*ast.CallExpr); ok {
+				return nl + ".retCall " + leanStr(rtext(nm, c.Fun)) + " " + routeArgs(nm, c)
+			}
+			return nl + ".ret " + leanStr(rtext(nm, x.Results[0]))
+		}
+	}
+	return nl + ".other " + leanStr(text(s))
+}
+
+func emitRoute(b *strings.Builder, name string, fd *ast.FuncDecl) {
+	fmt.Fprintf(b, "def route_%s : List Wire.RStmt := ", name)
+	if fd == nil || fd.Body == nil {
+		b.WriteString("[.other \"missing\"]\n\n")
+		return
+	}
+	b.WriteString(routeStmts(routeNormer(fd), fd.Body.List, ""))
+	b.WriteString("\n\n")
+}
+
 func emitSkel(b *strings.Builder, name string, fd *ast.FuncDecl) {
 	fmt.Fprintf(b, "def skel_%s : List (String × String) := [", name)
 	if fd == nil {
@@ -1148,7 +1282,7 @@ func main() {
 	outp := flag.String("out", "", "output Lean file")
 	flag.Parse()
 	var b strings.Builder
-	b.WriteString("-- generated by xlate/c05 from " + "the Go source" + "; do not edit\nimport Golib.Wire.Steps\nimport Golib.Wire.HashExpr\nnamespace Gen.C05\n\n")
+	b.WriteString("-- generated by xlate/c05 from " + "the Go source" + "; do not edit\nimport Golib.Wire.Steps\nimport Golib.Wire.HashExpr\nimport Golib.Wire.Route\nnamespace Gen.C05\n\n")
 
 	// ---- pack types
 	packDir := filepath.Join(*repo, "lang", "pack")
@@ -1200,6 +1334,9 @@ func main() {
 	b.WriteString("\n")
 	emitSkel(&b, "makeData", method(ow, "OneWayTcpClient", "makeData"))
 	emitSteps(&b, "makeData", method(ow, "OneWayTcpClient", "makeData"))
+	// the send routes: every statement of Send / SendFlush (receiver _L0, parameters _L1.., locals after them)
+	emitRoute(&b, "Send", method(ow, "OneWayTcpClient", "Send"))
+	emitRoute(&b, "SendFlush", method(ow, "OneWayTcpClient", "SendFlush"))
 
 	// ---- DataOutputX.WriteHeader / WriteOneWayHeader
 	dox := parse(filepath.Join(*repo, "io", "DataOutputX.go"))
